@@ -32,7 +32,8 @@ pub static ALLOW_CHDIR: std::sync::atomic::AtomicBool = std::sync::atomic::Atomi
 /// Set by the driver binary: this process runs steps on somebody's behalf and ends afterwards.
 pub static IN_DRIVER: std::sync::atomic::AtomicBool = std::sync::atomic::AtomicBool::new(false);
 
-fn before_commit(ctx: &Ctx, s: &WriteSpec) {
+fn before_commit(ctx: &Ctx, s: &WriteSpec) -> Option<Out> {
+    let mut interference = None;
     if let Some(d) = s.chdir_mid {
         if ALLOW_CHDIR.load(Ordering::SeqCst) {
             let dir = ctx.scratch.join("cwd").join(format!("d{d}"));
@@ -53,6 +54,12 @@ fn before_commit(ctx: &Ctx, s: &WriteSpec) {
         }
         Interfere::RemoveContentArea => {
             let _ = std::fs::remove_dir_all(ctx.cache.join("content-v2"));
+        }
+        Interfere::RemoveKeyFully | Interfere::RemoveKey => {
+            if let Some(k) = s.key {
+                let r = if s.interfere == Interfere::RemoveKeyFully { cacache::RemoveOpts::new().remove_fully(true).remove_sync(&ctx.cache, ctx.key(k)) } else { cacache::remove_sync(&ctx.cache, ctx.key(k)) };
+                interference = Some(unit(r));
+            }
         }
     }
     for i in 0..s.churn {
@@ -84,6 +91,7 @@ fn before_commit(ctx: &Ctx, s: &WriteSpec) {
         }
     }
     COMMIT_T0.with(|c| c.set(Some(now_ms())));
+    interference
 }
 
 thread_local! {
@@ -641,7 +649,13 @@ fn do_write_sync(ctx: &Ctx, s: &WriteSpec) -> Out {
                     return io_out(e);
                 }
             }
-            before_commit(ctx, s);
+            if let Some(first) = before_commit(ctx, s) {
+                let second = match w.commit() {
+                    Ok(sri) => Out::Int(sri.to_string()),
+                    Err(e) => err_out(e),
+                };
+                return Out::Pair(Box::new(first), Box::new(second));
+            }
             w.commit()
         }
     };
@@ -733,7 +747,13 @@ async fn do_write_async_inner(ctx: &Ctx<'_>, s: &WriteSpec, data: &[u8]) -> Out 
                     return io_out(e);
                 }
             }
-            before_commit(ctx, s);
+            if let Some(first) = before_commit(ctx, s) {
+                let second = match w.commit().await {
+                    Ok(sri) => Out::Int(sri.to_string()),
+                    Err(e) => err_out(e),
+                };
+                return Out::Pair(Box::new(first), Box::new(second));
+            }
             w.commit().await
         }
     };
